@@ -19,7 +19,7 @@ func init() {
 	stats.Rule("C10", "rapid state machine on DDSketchWithExactSummaryStatistics (three mapping kinds, all five store kinds) with a plain DDSketch twin receiving the same actions: Add, AddWithCount (dyadic weights incl. 0), rejected adds (NaN, +-Inf, beyond range, negative weight), bursts, MergeWith and DecodeAndMergeWith of generated arguments, Copy (original then mutated), Clear, Reweight, Encode/Decode round-trip, ChangeMapping (new mapping, scale in [1e-3,1e3]). Oracle after every step: count == exact sum of weights, IsEmpty <=> count == 0, min/max bitwise equal to the exact extremes (error iff empty), |sum - exact sum| <= (8+2k) ulps of sum|v*w| (k = reweight/rescale/decode/merge steps), every probe quantile inside [min,max]; while the state is dyadic-bounded (no ChangeMapping yet) the bins equal the exact model and every quantile equals clamp(plain twin's answer, min, max) exactly; after a ChangeMapping the bins are compared with the twin's within a 1e-9 relative weight tolerance. Non-trivial: >= 3 different action kinds including one of {reweight, changemapping, encdec, merge, decmerge} after the first add; distinct by hash of the operation log.")
 }
 
-var c10Kinds = []string{"add", "add", "add", "add", "burst", "bad", "badmerge", "merge", "decmerge", "copy", "clear", "reweight", "encdec"}
+var c10Kinds = []string{"add", "add", "add", "add", "burst", "bad", "badmerge", "merge", "decmerge", "copy", "clear", "reweight", "encdec", "vanish"}
 
 // moderateDomain restricts the window to values within [1e-50, 1e50] so that unit changes keep everything far inside every mapping's range.
 func moderateDomain(t *rapid.T, c skCfg) valDom {
